@@ -89,7 +89,8 @@ impl Constraint {
                 extensible,
             }) = &set.set
             {
-                return Ok((min, max, *extensible));
+                // `((a..b), ...)`: the marker stands after the parenthesised element
+                return Ok((min, max, *extensible || set.extensible));
             }
         }
         Err(GrammarError::new(
@@ -105,7 +106,7 @@ impl Constraint {
                 extensible,
             }) = &set.set
             {
-                return Ok((value, *extensible));
+                return Ok((value, *extensible || set.extensible));
             }
         }
         Err(GrammarError::new(
